@@ -44,6 +44,83 @@ def opt_root_exception(P):
     return None
 
 
+def rule_name_format(P):
+    """names the resolver formats itself (reverse lookups) into fixed local buffers: the longest text the conversions can produce, NUL included, must fit - evutil_snprintf truncates
+    silently and the query would go out for another name"""
+    import re
+    r = Rule("C36-name-format", "K4", "every evutil_snprintf into a fixed local buffer in evdns.c fits in the worst case of its conversions (ranges taken from casts and masks of the arguments)", floor=2)
+
+    def width(arg, conv):
+        a = arg
+        lo_bits = None
+        while True:
+            a = strip(a)
+            if is_e(a, "cast"):
+                ty = a[1] if isinstance(a[1], str) else ""
+                if re.search(r"\b(u8|uint8_t|ev_uint8_t|unsigned char)\b", ty):
+                    lo_bits = 8 if lo_bits is None else min(lo_bits, 8)
+                a = a[-1]
+                continue
+            break
+        if is_e(a, "bin") and a[1] == "&" and is_e(strip(a[3]), "int") and strip(a[3])[1] >= 0:
+            m = strip(a[3])[1].bit_length()
+            lo_bits = m if lo_bits is None else min(lo_bits, m)
+        if lo_bits is None:
+            return None
+        top = (1 << lo_bits) - 1
+        return len("%d" % top) if conv in "diu" else len("%x" % top)
+    for f in P.fns_in("evdns.c"):
+        for el in f.calls("evutil_snprintf"):
+            a = el.e[2]
+            dst = strip(a[0])
+            fmt = strip(a[2])
+            if not (is_e(dst, "var") and is_e(fmt, "str")):
+                continue
+            m = re.search(r"\[(\d+)\]", f.var_type(dst[1]) or "")
+            if not m:
+                continue
+            cap = int(m.group(1))
+            try:
+                size = evalx(a[1], {}, P)
+            except Exception:
+                size = None
+            text = fmt[1].decode("latin-1") if isinstance(fmt[1], bytes) else str(fmt[1])
+            worst, k, ok = 0, 0, True
+            i = 0
+            while i < len(text):
+                if text[i] != "%":
+                    worst += 1
+                    i += 1
+                    continue
+                mm = re.match(r"%([-+ #0]*)(\d*)(hh|h|ll|l|z)?([diuxXc%s])", text[i:])
+                if not mm or mm.group(4) == "s":
+                    ok = False
+                    break
+                conv = mm.group(4)
+                if conv == "%":
+                    worst += 1
+                elif conv == "c":
+                    worst += 1
+                    k += 1
+                else:
+                    w = width(a[3 + k], conv) if 3 + k < len(a) else None
+                    if w is None:
+                        w = 20 if mm.group(3) in ("l", "ll", "z") else 11
+                    if mm.group(2):
+                        w = max(w, int(mm.group(2)))
+                    worst += w
+                    k += 1
+                i += mm.end()
+            if not ok:
+                continue        # a %s conversion: not a name built from numbers
+            r.inst((f.name, el.n), {"fn": f.name, "site": el.where(), "format": text, "buffer": "%s[%d]" % (dst[1], cap), "size_argument": size, "worst_case_with_nul": worst + 1})
+            if worst + 1 > cap or (isinstance(size, int) and size > cap):
+                r.bad("K4:%s:formatted-name-truncated" % f.name, el.where(), f.name,
+                      "\"%s\" can produce %d characters plus the terminator, the buffer %s holds %d: evutil_snprintf cuts the name short and the query asks for a different name "
+                      "(for the reverse name of an address whose every component has the full number of digits)" % (text, worst, dst[1], cap))
+    return r
+
+
 def run(ctx, config):
     P = ctx.prog(UNITS, config)
     rules = []
@@ -96,6 +173,7 @@ def run(ctx, config):
     rules.append(rule_case(P))
     rules.append(rule_encode(P))
     rules.append(rule_search_name(P))
+    rules.append(rule_name_format(P))
     return rules
 
 
